@@ -25,6 +25,8 @@ type dagCfg struct {
 	// Real: the failing rules fail by a real fault (an ill-typed store into an injected field, which
 	// panics inside reflect) instead of the panicking observer
 	Real bool `json:"real,omitempty"`
+	// RetFail: ... or by the expression of their top-level return
+	RetFail bool `json:"retfail,omitempty"`
 }
 
 type dagInj struct{ N int64 }
@@ -41,8 +43,8 @@ type dagState struct {
 
 var dagCompiled = map[string]*builder.RuleBuilder{}
 
-func dagRules(fail []string, real bool) *builder.RuleBuilder {
-	key := strings.Join(fail, ",") + fmt.Sprint(real)
+func dagRules(fail []string, real, retFail bool) *builder.RuleBuilder {
+	key := strings.Join(fail, ",") + fmt.Sprint(real, retFail)
 	if rb, ok := dagCompiled[key]; ok {
 		return rb
 	}
@@ -58,6 +60,9 @@ func dagRules(fail []string, real bool) *builder.RuleBuilder {
 		if f && real {
 			sp.Fail, sp.After = false, `inj.N = "x"`
 		}
+		if f && retFail {
+			sp.Fail, sp.After = false, `return nosuch(1)`
+		}
 		rs = append(rs, sp)
 	}
 	rb := gx.MustCompile(gx.RulesText(rs))
@@ -66,7 +71,7 @@ func dagRules(fail []string, real bool) *builder.RuleBuilder {
 }
 
 func dagScenario(cfg dagCfg) *hx.Scenario {
-	src := dagRules(cfg.Fail, cfg.Real)
+	src := dagRules(cfg.Fail, cfg.Real, cfg.RetFail)
 	failing := map[int64]bool{}
 	for _, n := range cfg.Fail {
 		failing[dagIDs[n]] = true
@@ -222,6 +227,7 @@ func dagConfigs(thorough bool) []dagCfg {
 				out = append(out, dagCfg{Layers: l, Fail: f, Used: used})
 				if len(f) > 0 {
 					out = append(out, dagCfg{Layers: l, Fail: f, Used: used, Real: true})
+					out = append(out, dagCfg{Layers: l, Fail: f, Used: used, RetFail: true})
 				}
 			}
 		}
@@ -233,10 +239,10 @@ func init() {
 	hx.Register(&hx.Prop{
 		ID:          "C13",
 		Workers:     func(string) int { return 16 },
-		BudgetQuick: 120 * time.Second,
+		BudgetQuick: 300 * time.Second,
 		BudgetThor:  20 * time.Minute,
 		Kind:        "schedules",
-		Rule: "for every DAG layering (widths 1-3, empty layers, unknown names, duplicate names) x failing subset (failing by the panicking observer / by an ill-typed store into an injected field) x fresh/previously-used engine: " +
+		Rule: "for every DAG layering (widths 1-3, empty layers, unknown names, duplicate names) x failing subset (failing by the panicking observer / by an ill-typed store into an injected field / by the expression of the top-level return) x fresh/previously-used engine: " +
 			"every schedule of ExecuteDAGModel's goroutines up to the preemption bound (quick 2, thorough unbounded with trace pruning); " +
 			"distinct = distinct happens-before trace fingerprints; outcomes = distinct global event logs",
 		Assume: []string{"injected observer functions terminate", "sequentially consistent memory (races are C19's subject)"},
